@@ -11,7 +11,10 @@ import (
 	"regexp"
 	"strconv"
 	"strings"
+	"time"
 	"unicode"
+
+	cron "github.com/robfig/cron/v3"
 )
 
 type intrinsic func(fr *frame, args []value) value
@@ -35,6 +38,7 @@ var initAllowed = map[string]bool{
 	"math/bits":                   true,
 	"bufio":                       true,
 	"bytes":                       true,
+	"strconv":                     true,
 }
 
 var interpPkgs = map[string]bool{
@@ -54,6 +58,7 @@ var interpPkgs = map[string]bool{
 	"bufio":                       true,
 	"bytes":                       true,
 	"gopkg.in/yaml.v3":            false,
+	"strconv":                     true,
 }
 
 func interpretedPkg(path string) bool { return interpPkgs[path] }
@@ -118,6 +123,8 @@ func (i *interpreter) renderInputs(m map[string]uint64) map[string]string {
 			out[in.Name] = fmt.Sprint(m[in.Name] != 0)
 		case "int":
 			out[in.Name] = fmt.Sprint(int64(m[in.Name]))
+		case "choice":
+			out[in.Name] = fmt.Sprint(in.N)
 		default:
 			out[in.Name] = fmt.Sprint(m[in.Name])
 		}
@@ -791,7 +798,7 @@ func init() {
 			}
 			return tuple{n, iface{}}
 		}
-		return i.parseIntStub("strconv.Atoi", a[0], types.Int, 64)
+		return fr.interpretSelf(a)
 	})
 	reg("strconv.ParseInt", func(fr *frame, a []value) value {
 		i := fr.i
@@ -804,7 +811,8 @@ func init() {
 			}
 			return tuple{n, iface{}}
 		}
-		return i.parseIntStub("strconv.ParseInt", a[0], types.Int64, bits)
+		_ = bits
+		return fr.interpretSelf(a)
 	})
 	reg("strconv.ParseFloat", func(fr *frame, a []value) value {
 		i := fr.i
@@ -830,6 +838,8 @@ func init() {
 		return strconv.FormatInt(asInt64(a[0]), int(asInt64(a[1])))
 	})
 
+	reg("internal/stringslite.Clone", func(fr *frame, a []value) value { return a[0] })
+	reg("strings.Clone", func(fr *frame, a []value) value { return a[0] })
 	// ---------------- math ----------------
 	reg("math.IsNaN", func(fr *frame, a []value) value {
 		if f, ok := a[0].(*symFloat); ok {
@@ -864,8 +874,55 @@ func init() {
 		}
 		return i.matchStub(re, a[1])
 	})
+	reg("(*regexp.Regexp).FindAllStringSubmatch", func(fr *frame, a []value) value {
+		re := nativeOf(a[0]).(*regexp.Regexp)
+		s, ok := a[1].(string)
+		if !ok {
+			// contract: on symbolic text the matcher is opaque; a free choice between
+			// "no match" and "unsupported" would be unsound, so decline
+			panic(unsupported{"FindAllStringSubmatch on symbolic text"})
+		}
+		return nativeToValue(re.FindAllStringSubmatch(s, int(asInt64(a[2]))))
+	})
+	reg("(*regexp.Regexp).FindStringSubmatch", func(fr *frame, a []value) value {
+		re := nativeOf(a[0]).(*regexp.Regexp)
+		return nativeToValue(re.FindStringSubmatch(mustString(a[1], "FindStringSubmatch")))
+	})
 	reg("(*regexp.Regexp).String", func(fr *frame, a []value) value {
 		return nativeOf(a[0]).(*regexp.Regexp).String()
+	})
+
+	// ---------------- cron / time (native on concrete data) ----------------
+	reg("(github.com/robfig/cron/v3.Parser).Parse", func(fr *frame, a []value) value {
+		i := fr.i
+		spec, ok := a[1].(string)
+		if !ok {
+			return fr.interpretSelf(a)
+		}
+		opts := asInt64(a[0].(structure)[0])
+		sched, err := cron.NewParser(cron.ParseOption(opts)).Parse(spec)
+		if err != nil {
+			return tuple{iface{}, i.newError(err.Error())}
+		}
+		t := types.NewPointer(i.namedType("github.com/robfig/cron/v3", "SpecSchedule"))
+		return tuple{iface{t: t, v: nativePtr(sched)}, iface{}}
+	})
+	reg("(*github.com/robfig/cron/v3.SpecSchedule).Next", func(fr *frame, a []value) value {
+		sched := nativeOf(a[0]).(cron.Schedule)
+		t := a[1].(*nativeVal).v.(time.Time)
+		return &nativeVal{sched.Next(t)}
+	})
+	reg("time.Unix", func(fr *frame, a []value) value {
+		return &nativeVal{time.Unix(asInt64(a[0]), asInt64(a[1]))}
+	})
+	reg("(time.Time).Sub", func(fr *frame, a []value) value {
+		return int64(a[0].(*nativeVal).v.(time.Time).Sub(a[1].(*nativeVal).v.(time.Time)))
+	})
+	reg("(time.Duration).Seconds", func(fr *frame, a []value) value {
+		return time.Duration(asInt64(a[0])).Seconds()
+	})
+	reg("(time.Duration).Milliseconds", func(fr *frame, a []value) value {
+		return time.Duration(asInt64(a[0])).Milliseconds()
 	})
 
 	// ---------------- sync: no-ops in sequential harnesses ----------------
